@@ -102,3 +102,40 @@ func C07_Position() {
 	_, lerr := lp.Query(bg, arr)
 	nd.Assert(lerr == nil, "C07/position/lax-must-not-err "+src)
 }
+
+var _ = reg("C07_Deep", C07_Deep)
+
+var deepAcc = []string{".a", ".*", "[*]", "[0]", "[last]", " ? (exists(@.a))", " ? (@[*] > 0)"}
+
+// C07_Deep: chains of two or three accessors on narrow documents nested four
+// containers deep: in lax mode each step unwraps an array exactly one level,
+// whatever step produced it, and never errs; strict errs exactly where the
+// reference walk meets a mismatch.
+func C07_Deep() {
+	src := "$" + deepAcc[nd.Choice(len(deepAcc))] + deepAcc[nd.Choice(len(deepAcc))]
+	if nd.Choice(2) == 1 {
+		src += deepAcc[nd.Choice(len(deepAcc))]
+	}
+	doc := nd.JSON(nd.Spec{Kinds: nd.KFloat | nd.KArray | nd.KObject, Depth: 4, Width: 1, Keys: []string{"a"}})
+	lp := parse(src)
+	lgot, lerr := lp.Query(bg, doc)
+	nd.Assert(lerr == nil, "C07/deep/lax-must-not-err "+src)
+	lwant, lwerr, lopen, lperm := refQueryOpt(lp.AST, doc, nil, true)
+	if !lopen && lerr == nil && lwerr == eNone {
+		nd.Assert(sameSeq(lgot, lwant, lperm), "C07/deep/lax-items "+src)
+	}
+	sp := parse("strict " + src)
+	sgot, serr := sp.Query(bg, doc)
+	swant, swerr, sopen, sperm := refQueryOpt(sp.AST, doc, nil, true)
+	if sopen {
+		return
+	}
+	if swerr != eNone {
+		nd.Assert(serr != nil && isVerbose(serr), "C07/deep/strict-must-report "+src)
+	} else {
+		nd.Assert(serr == nil, "C07/deep/strict-spurious-error "+src)
+		if serr == nil {
+			nd.Assert(sameSeq(sgot, swant, sperm), "C07/deep/strict-items "+src)
+		}
+	}
+}
